@@ -122,6 +122,12 @@ package policer
 //@   callee *).IsLocalNodePublicKey
 //@   pureeffect
 //@   defines result == currentNodeIsLocal()
+// ... and when copies are still owed at its turn, the local node's own copy is one of them,
+// whatever the network map says about the node (a node that runs its policer while flagged
+// MAINTENANCE is no "unchecked remote copy" of itself).
+//@ func (*Policer).processNodes
+//@   property C26
+//@   loop 1 iteration [local_node_with_copies_still_owed_keeps_its_copy] currentNodeIsLocal() && athead(shortage) > 0 ==> plc.needLocalCopy
 //@ callrule c27_no_header_request_to_the_local_node in (*Policer).processNodes
 //@   property C27 C26
 //@   callee *).headObject
